@@ -18,8 +18,9 @@ RULE = (
     "programs between good ones, alias/define programs, multi-module programs, generated programs); the whole "
     "history runs in one long-lived worker; monitors: (1) every occurrence of a request must return the same result "
     "as its first occurrence; (2) it must equal the result of the same request compiled alone in fresh processes "
-    "(python -c, one request each) under 2 (quick) / 4 (thorough) values of PYTHONHASHSEED, which must agree with "
-    "each other; (3) deep snapshots of the options object and of the source mapping before and after each call must "
+    "(python -c, one request each; in the quick tier one request per history that way and the others in children "
+    "forked from a template process that has imported the package but never compiled anything) under 2 (quick) / 4 "
+    "(thorough) values of PYTHONHASHSEED, which must agree with each other; (3) deep snapshots of the options object and of the source mapping before and after each call must "
     "be equal; non-trivial = a request that occurs at least twice in a history after at least one different "
     "request; distinct = sha1(request)"
 )
@@ -40,11 +41,78 @@ sys.stdout.write("\n@@RESULT@@" + json.dumps(res))
 """
 
 
+ZYGOTE = r"""
+import sys, json, os
+sys.path.insert(0, %r)
+import astroid
+from stationeers_pytrapic.compiler import compile_code, CompileOptions
+# warm astroid's own module cache (not transpiler state): parsing the dialect's import line builds the AST of the
+# 34k-line generated tables, which otherwise costs seconds in every child
+astroid.parse("from stationeers_pytrapic.symbols import *\n")
+out = sys.stdout
+for line in sys.stdin:
+    line = line.strip()
+    if not line:
+        continue
+    req = json.loads(line)
+    r, w = os.pipe()
+    pid = os.fork()
+    if pid == 0:
+        os.close(r)
+        try:
+            res = compile_code(req["src"], CompileOptions(**req["opts"]))
+            data = json.dumps(res)
+        except BaseException as e:
+            data = json.dumps({"_fresh_failed": repr(e)})
+        with os.fdopen(w, "w") as f:
+            f.write(data)
+        os._exit(0)
+    os.close(w)
+    with os.fdopen(r) as f:
+        data = f.read()
+    os.waitpid(pid, 0)
+    out.write(data.replace("\n", " ") + "\n")
+    out.flush()
+"""
+
+_zygotes = {}
+
+
+def zygote_result(req, hashseed):
+    """result of the request compiled in a child forked from a template process that has imported the package
+    (under the given PYTHONHASHSEED) but has never compiled anything"""
+    z = _zygotes.get(hashseed)
+    if z is None or z.poll() is not None:
+        env = dict(os.environ, PYTHONHASHSEED=str(hashseed))
+        env.pop("PYTRAPIC_VERIF", None)
+        z = subprocess.Popen([PYTHON, "-c", ZYGOTE % str(REPO_SRC)], stdin=subprocess.PIPE, stdout=subprocess.PIPE, stderr=subprocess.DEVNULL, env=env, text=True, bufsize=1)
+        _zygotes[hashseed] = z
+        if len(_zygotes) > 6:
+            for k in list(_zygotes)[:-4]:
+                try:
+                    _zygotes.pop(k).kill()
+                except Exception:
+                    pass
+    for attempt in range(3):
+        try:
+            z.stdin.write(json.dumps(dict(src=req["src"], opts=req["opts"])) + "\n")
+            z.stdin.flush()
+            line = z.stdout.readline()
+            if not line:
+                return dict(_fresh_failed="zygote died")
+            res = json.loads(line)
+        except Exception as e:
+            return dict(_fresh_failed=repr(e))
+        if not H.is_timeout(res):
+            return res
+    return res
+
+
 def plan(tier, seed):
     q = tier == "quick"
     # a fresh process costs 4-6 CPU-seconds (imports + astroid warm-up): the quick tier takes fresh references for
     # 4 requests per history, the thorough tier for all of them under 4 hash seeds
-    return dict(tasks=pool.batches("history", 12 if q else 400, 1, tier=tier), nworkers=12, time_cap=80 if q else 880, timeout=300, max_samples=2)
+    return dict(tasks=pool.batches("history", 8 if q else 400, 1, tier=tier), nworkers=8, time_cap=80 if q else 880, timeout=300, max_samples=2)
 
 
 def worker_init():
@@ -104,7 +172,7 @@ def gen_case(task, i):
     hs = [0, r.randrange(1, 1000)] + ([r.randrange(1000, 2000), r.randrange(2000, 3000)] if task.get("tier") == "thorough" else [])
     fresh_for = list(range(len(P)))
     if task.get("tier") != "thorough":
-        fresh_for = sorted(r.sample(fresh_for, min(3, len(fresh_for))))
+        fresh_for = sorted(r.sample(fresh_for, 1))
     return dict(pool=P, order=order, hashseeds=hs, fresh_for=fresh_for, stream=task["stream"])
 
 
@@ -191,13 +259,16 @@ def check_case(case):
     # fresh-process references
     if not vio:
         for k, (pos, res) in first.items():
-            if k not in case.get("fresh_for", list(range(len(P)))):
-                continue
             req = P[k]
             refs = []
+            truly = k in case.get("fresh_for", list(range(len(P))))
             for h in case["hashseeds"]:
-                fr = fresh(req, h)
-                cnt["fresh_processes"] += 1
+                if truly:
+                    fr = fresh(req, h)
+                    cnt["fresh_processes"] += 1
+                else:
+                    fr = zygote_result(req, h)
+                    cnt["forked_pristine_children"] = cnt.get("forked_pristine_children", 0) + 1
                 if "_fresh_failed" in fr or H.is_timeout(fr):
                     cnt["timeouts"] += 1
                     continue
@@ -245,6 +316,6 @@ def run_case(task, i):
 
 def finish(agg, tier):
     c = agg["counters"]
-    if c.get("compared_with_first", 0) < 200 or c.get("compared_with_fresh", 0) < 20:
+    if c.get("compared_with_first", 0) < 120 or c.get("compared_with_fresh", 0) < 20:
         return dict(inconclusive=f"history checker saw too little: {dict(c)}")
     return None
